@@ -286,6 +286,10 @@ func newStepWorld(sh stepShape) *stepWorld {
 			s.a2.expectOne(&vikjapb.EntityActionRequest{Type: vikjapb.MsgType_MSG_TYPE_VIKJA_ENTITY_ACTION_REQUEST, Timestamp: vts(), RequestId: 11,
 				EntityAction: &vikjapb.EntityAction{EntityId: s.ePers, Name: "act", Timestamp: vts(), Data: nil}},
 				hagallpb.MsgType(vikjapb.MsgType_MSG_TYPE_VIKJA_ENTITY_ACTION_RESPONSE), "setup.action_pers")
+			// and one on the other member's entity
+			s.a1.expectOne(&vikjapb.EntityActionRequest{Type: vikjapb.MsgType_MSG_TYPE_VIKJA_ENTITY_ACTION_REQUEST, Timestamp: vts(), RequestId: 11,
+				EntityAction: &vikjapb.EntityAction{EntityId: s.eOther, Name: "act", Timestamp: vts(), Data: nil}},
+				hagallpb.MsgType(vikjapb.MsgType_MSG_TYPE_VIKJA_ENTITY_ACTION_RESPONSE), "setup.action_other")
 		}
 	}
 	if sh.mods&vModOdal != 0 {
@@ -293,6 +297,9 @@ func newStepWorld(sh stepShape) *stepWorld {
 		if s.hasAsset {
 			s.a0.expectOne(&odalpb.AssetInstanceAddRequest{Type: odalpb.MsgType_MSG_TYPE_ODAL_ASSET_INSTANCE_ADD_REQUEST, Timestamp: vts(), RequestId: 12, EntityId: s.eOwn, AssetId: "asset0"},
 				hagallpb.MsgType(odalpb.MsgType_MSG_TYPE_ODAL_ASSET_INSTANCE_ADD_RESPONSE), "setup.asset")
+			// the other member's entity carries an asset too
+			s.a1.expectOne(&odalpb.AssetInstanceAddRequest{Type: odalpb.MsgType_MSG_TYPE_ODAL_ASSET_INSTANCE_ADD_REQUEST, Timestamp: vts(), RequestId: 12, EntityId: s.eOther, AssetId: "asset1"},
+				hagallpb.MsgType(odalpb.MsgType_MSG_TYPE_ODAL_ASSET_INSTANCE_ADD_RESPONSE), "setup.asset_other")
 		}
 	}
 	// the owner of ePers departs
